@@ -128,7 +128,9 @@ AbsAfter(s, e) ==
         c == IF e.p \in DOMAIN s.cur THEN s.cur[e.p] ELSE <<>>
     IN IF ~e.ok \/ ~Has(c, "key") \/ ~Has(c, "val") \/ c.key \notin present THEN m0
        ELSE IF e.api \in {"set", "set_tf"} \/ (e.api = "gou" /\ Has(c, "judge") /\ c.judge = "replace") THEN Put(m0, c.key, c.val)
-       ELSE IF e.api \in {"put", "put_tf", "ensure"} /\ c.key \notin DOMAIN m0 THEN Put(m0, c.key, c.val)
+       \* (ensure / gou on a key held by a read-only level promotes that level's copy, not c.val: left unconstrained)
+       ELSE IF e.api \in {"ensure", "gou"} /\ Has(s.cfg, "rokeys") /\ c.key \in SeqSet(s.cfg.rokeys) THEN m0
+       ELSE IF e.api \in {"put", "put_tf", "ensure", "gou"} /\ c.key \notin DOMAIN m0 THEN Put(m0, c.key, c.val)
        ELSE m0
 
 RetStep(s, e) ==
@@ -187,7 +189,7 @@ Violations(s, e, s2) ==
               \cup Mon("NoLaterLookups", NoLaterLookups(cfg, s, e)) \cup Mon("TouchMarksFirstOnly", TouchMarksFirstOnly(cfg, s, e)) \cup Mon("OneCopy", OneCopy(cfg, s)) \cup Mon("UnexplainedLoss", UnexplainedLoss(cfg, s, e, s2))
               \cup Mon("SrcConsumed", SrcConsumed(e)) \cup Mon("ReadMarks", ReadMarks(cfg, s, e)) \cup Mon("FreshOnWrite", FreshOnWrite(cfg, s, e))
           ELSE {})
-    \cup (IF isSys /\ e.call = "close" /\ e.p \in DOMAIN s.prune /\ s.prune[e.p].fd = e.fd /\ InLib(e)
+    \cup (IF isSys /\ IsSeq(cfg) /\ e.call = "close" /\ e.p \in DOMAIN s.prune /\ s.prune[e.p].fd = e.fd /\ InLib(e)
              /\ Has(e, "fdpath") /\ DirId(e.fdpath) = s.prune[e.p].d
           THEN Mon("PruneOK", PruneOK(s.prune[e.p].fs, s2.fs, s.prune[e.p].d,
                                       IF e.api = "prune" THEN s.cur[e.p].cap ELSE
